@@ -22,6 +22,7 @@ type callSpec struct {
 	key string
 	ex  bool // DoEx
 	err bool // fn returns an error
+	pan bool // fn panics (the caller recovers above Do)
 }
 
 // ---- log records ----
@@ -48,8 +49,10 @@ func parse(log []string) []evt {
 			e.caller = f[1]
 		case "S":
 			e.exec, e.key, e.caller = f[1], f[2], f[3]
-		case "E":
+		case "E", "P":
 			e.exec = f[1]
+		case "RP", "RN":
+			e.caller = f[1]
 		case "R":
 			e.caller, e.exec, e.fresh, e.hasErr = f[1], f[2], f[3] == "true", f[4] == "true"
 		}
@@ -93,6 +96,10 @@ func singleFlightScenario(name string, threads [][]callSpec) vx.Scenario {
 						id := fmt.Sprintf("x%d", st.nexec)
 						vsched.Log("S %s %s %s", id, c.key, me)
 						vsched.Op("in-fn")
+						if c.pan {
+							vsched.Log("P %s", id)
+							panic("fn panic")
+						}
 						vsched.Log("E %s", id)
 						if c.err {
 							return id, errors.New("err-" + id)
@@ -103,10 +110,26 @@ func singleFlightScenario(name string, threads [][]callSpec) vx.Scenario {
 					var v any
 					var err error
 					fresh := false
-					if c.ex {
-						v, fresh, err = g.DoEx(c.key, fn)
-					} else {
-						v, err = g.Do(c.key, fn)
+					panicked := false
+					func() {
+						defer func() {
+							if r := recover(); r != nil {
+								panicked = true
+							}
+						}()
+						if c.ex {
+							v, fresh, err = g.DoEx(c.key, fn)
+						} else {
+							v, err = g.Do(c.key, fn)
+						}
+					}()
+					if panicked {
+						vsched.Log("RP %s", me)
+						continue
+					}
+					if v == nil && err == nil {
+						vsched.Log("RN %s", me) // (nil, nil): only what waiters of a panicked execution may see
+						continue
 					}
 					id, _ := v.(string)
 					if err != nil && err.Error() != "err-"+id {
@@ -138,6 +161,7 @@ func singleFlightScenario(name string, threads [][]callSpec) vx.Scenario {
 		execKey := map[string]string{} // exec -> key
 		active := map[string]string{}  // key -> running exec
 		ended := map[string]bool{}
+		panickedExec := map[string]bool{}
 		freshCount := map[string]int{}
 		users := map[string]int{}
 		for _, x := range ev {
@@ -154,8 +178,28 @@ func singleFlightScenario(name string, threads [][]callSpec) vx.Scenario {
 			case "E":
 				delete(active, execKey[x.exec])
 				ended[x.exec] = true
-			case "R":
+			case "P":
+				delete(active, execKey[x.exec])
+				panickedExec[x.exec] = true
+			case "R", "RP", "RN":
 				retPos[x.caller] = x.pos
+			}
+		}
+		// (nil, nil) without an error is only explicable as the outcome of a panicked execution
+		// whose leading call overlapped the caller's call; a later caller must run a fresh execution
+		for _, x := range ev {
+			if x.kind != "RN" {
+				continue
+			}
+			ok := false
+			for ex := range panickedExec {
+				ld := leader[ex]
+				if ld != x.caller && retPos[ld] > callPos[x.caller] && callPos[ld] < x.pos {
+					ok = true
+				}
+			}
+			if !ok {
+				return vx.Verdict{Class: "sf-stale-result", Msg: fmt.Sprintf("caller %s (invoked at %d) received (nil, nil) although no panicked execution overlapped its call: a finished call was retained", x.caller, callPos[x.caller])}
 			}
 		}
 		for _, x := range ev {
@@ -391,6 +435,7 @@ func main() {
 	c := func(key string) callSpec { return callSpec{key: key} }
 	cx := func(key string) callSpec { return callSpec{key: key, ex: true} }
 	ce := func(key string) callSpec { return callSpec{key: key, err: true} }
+	cp := func(key string) callSpec { return callSpec{key: key, pan: true} }
 	sc = append(sc,
 		singleFlightScenario("sf-3x1-kkq", [][]callSpec{{c(k)}, {c(k)}, {c(q)}}),
 		singleFlightScenario("sf-3x1-kkk-doex", [][]callSpec{{cx(k)}, {cx(k)}, {cx(k)}}),
@@ -398,6 +443,8 @@ func main() {
 		singleFlightScenario("sf-2+2-kk,kk-doex", [][]callSpec{{cx(k), cx(k)}, {cx(k), cx(k)}}),
 		singleFlightScenario("sf-err-2+1", [][]callSpec{{ce(k), c(k)}, {c(k)}}),
 		singleFlightScenario("sf-2+1+1-kk,k,k", [][]callSpec{{c(k), c(k)}, {c(k)}, {cx(k)}}),
+		singleFlightScenario("sf-panic-2+1", [][]callSpec{{cp(k), c(k)}, {c(k)}}),
+		singleFlightScenario("sf-panic-1+2-doex", [][]callSpec{{cp(k)}, {cx(k), cx(k)}}),
 		lockedCallsScenario("lc-3x1-kkq", [][]callSpec{{c(k)}, {c(k)}, {c(q)}}, false),
 		lockedCallsScenario("lc-3x1-kkk", [][]callSpec{{c(k)}, {ce(k)}, {c(k)}}, false),
 		lockedCallsScenario("lc-2+1-kk,k", [][]callSpec{{c(k), c(k)}, {c(k)}}, false),
